@@ -7,11 +7,11 @@
 patch=$1; tier=$2; shift 2
 name=$(basename "$(dirname "$patch")")-$(basename "$patch" .diff)
 out=/tmp/mut/$name; rm -rf "$out"; mkdir -p "$out/repo"
-(cd /repo && git ls-files -z | xargs -0 cp --parents -t "$out/repo") || exit 2
+(cd "${VERIF_REPO_SRC:-/repo}" && git ls-files -z | xargs -0 cp --parents -t "$out/repo") || exit 2
 (cd "$out/repo" && git init -q . 2>/dev/null; git apply "$patch") || { echo "$name: patch does not apply"; exit 2; }
 # a snapshot of the harness sources, so that edits made while a long
 # evaluation runs do not leak into it
-cp -r /verif/sim "$out/sim" && export VERIF_SIM="$out/sim"
+cp -r "${VERIF_SIM_SRC:-/verif/sim}" "$out/sim" && export VERIF_SIM="$out/sim"
 cd /verif
 for p in "$@"; do
   start=$(date +%s)
